@@ -14,3 +14,15 @@ func init() {
 		Rule:        "bounded-exhaustive with all-distinct labels (operations are value-parametric, comparison bit-exact): At at every multi-index, Shape, NElems, Full/Zeros/Ones, every Slice index list (explicit/whole/omitted in every combination and length), every Patch (source shape <= target, every position, every index form) with round trips, every Reshape between equal-count shapes of the set, UnSqueeze/Squeeze/Flatten every dim, Broadcast from every compatible source, Concat of 2 and 3 operands along every dim with sizes 1..3 and slicing back, Eye(1..5). Non-trivial: more than one element (Broadcast: real expansion; Reshape: shape changes).",
 		Assumptions: []string{"value-parametricity of element-moving code paths (they never inspect the floats)", "bounded shapes"}})
 }
+
+func init() {
+	register(&Check{ID: "C02", Fn: checkC02,
+		Rule:        "bounded-exhaustive: for each of the 33 differentiable operations other than Broadcast, every operand shape of the bound (no implicit expansion), every valid dim / exponent {-2,-1,-0.5,0,0.5,1,2,3} / scale / index list (explicit, whole, omitted) / Patch source shape+position / Reshape target / 2-3 operand Concat, every non-empty subset of tracked operands, two generic value assignments plus base 0 for Pow(0|1|2), upstream all-ones and a non-uniform weighting W applied as BackPropagate(y*W). Oracle: BackPropagate returns nil, each tracked operand's gradient is non-nil, finite, of the operand's shape and equals the model VJP; untracked operands have none. Non-trivial: operand has more than one element. Cases at non-differentiable points are skipped and counted.",
+		Assumptions: []string{"reference VJPs (validated against central finite differences by selftest on every run of shard 0)", "bounded shapes: quick rank<=3 sizes{1,2,3}; thorough rank<=5 over {1,2} plus rank<=4 over {1,2,3}", "generic all-distinct values, not every float64"}})
+}
+
+func init() {
+	register(&Check{ID: "C07", Fn: checkC07,
+		Rule:        "bounded-exhaustive: explicit Broadcast for every (source,target) pair of the target set (new leading dims, size-1 dims expanded, both, factor 1 included); Add/Sub/Mul/Div for every operand pair broadcasting to every target and every tracked subset; Dot and MatMul for every broadcast-compatible batch pair; upstream all-ones and non-uniform W. Oracle: operand gradient has the operand's own shape and equals the SUM of upstream*local derivative over all copies. Non-trivial: a tracked operand is expanded by a factor > 1. A mismatch is a KNOWN-FINDING only if the observed gradients equal the alternative model 'mean instead of sum over the expanded copies' (listed finding broadcast_avg); anything else is a VIOLATION; factor-1 cases must match the exact model.",
+		Assumptions: []string{"reference VJPs validated by selftest", "bounded target shapes: quick rank<=3, thorough rank<=5 over {1,2,3}"}})
+}
